@@ -192,6 +192,38 @@ Definition array_assign (a : array) (count : nat) (x : arg) : res array :=
   Ok (mkArray (mkArr (repeat (mcell v) count ++ raws (newCap - count)) count)
               (if ic <? count then S (allocs a) else allocs a)).
 
+(* stdish::vector::assign(first, last) over a range outside the container: mArray = Array(first, last, memManager) *)
+Definition array_assign_range (a : array) (vs : list V) : res array :=
+  let count := length vs in
+  let newCap := if ic <? count then count else ic in
+  Ok (mkArray (mkArr (lives vs ++ raws (newCap - count)) count)
+              (if ic <? count then S (allocs a) else allocs a)).
+
+(* ---- void RemoveBack(size_t count): MOMO_CHECK(count <= GetCount()); pvRemoveBack(count) ---- *)
+Definition array_remove_back (a : array) (count : nat) : res array :=
+  with_body a (remove_back V (body a) count).
+
+(* ---- void Clear(bool shrink): shrink ? mData.Clear() (pvDestroy: destroy the items, deallocate; pvInit: back to the
+   internal buffer) : pvRemoveBack(GetCount()) ---- *)
+Definition array_clear (a : array) (shrink : bool) : res array :=
+  if shrink then
+    c' <- destroy V (cells (body a)) 0 (cnt (body a)) ;;
+    Ok (mkArray (mkArr (raws ic) 0) (allocs a))
+  else with_body a (remove_back V (body a) (cnt (body a))).
+
+(* ---- Insert(index, begin, end) over an INPUT (non-forward) iterator range: ArrayShifter::Insert inserts the items one
+   by one:  for (iter = begin; iter != end; ++iter, ++count) array.InsertCrt(index + count, IterCreator( *iter ))
+   InsertCrt = ItemHandler temporary; if (newCount > capacity) pvGrow(newCount, add); InsertNogrow(index, Item&&) ---- *)
+Definition array_insert_crt (a : array) (index : nat) (v : V) : res array :=
+  let newCount := cnt (body a) + 1 in
+  a1 <- (if cap (body a) <? newCount then pv_grow a newCount cause_add else Ok a) ;;
+  with_body a1 (insert_nogrow_gen V self_move after_move true (source_temp (Some v)) (body a1) index 1).
+Fixpoint array_insert_input (a : array) (index : nat) (vs : list V) : res array :=
+  match vs with
+  | [] => Ok a
+  | v :: t => a1 <- array_insert_crt a index v ;; array_insert_input a1 (S index) t
+  end.
+
 Definition array_empty : array := mkArray (mkArr (raws ic) 0) 0.
 
 (* ---- scripts ---- *)
@@ -199,7 +231,8 @@ Inductive op :=
 | OAddBack (x : arg) | OAddBackR (x : arg)
 | OInsert (index count : nat) (x : arg) | OInsertR (index : nat) (x : arg) | OInsertRange (index : nat) (vs : list V)
 | ORemove (index count : nat) | ORemoveFilter (p : V -> bool)
-| OSetCount (n : nat) (x : arg) | OAssign (n : nat) (x : arg) | OReserve (n : nat) | OShrink (n : nat) | OSet (i : nat) (v : V).
+| OSetCount (n : nat) (x : arg) | OAssign (n : nat) (x : arg) | OAssignRange (vs : list V)
+| ORemoveBack (n : nat) | OClear (shrink : bool) | OInsertInput (index : nat) (vs : list V) | OReserve (n : nat) | OShrink (n : nat) | OSet (i : nat) (v : V).
 
 Definition run_op (a : array) (o : op) : res array :=
   match o with
@@ -212,6 +245,10 @@ Definition run_op (a : array) (o : op) : res array :=
   | ORemoveFilter p => array_remove_filter a p
   | OSetCount n x => array_set_count a n x
   | OAssign n x => array_assign a n x
+  | OAssignRange vs => array_assign_range a vs
+  | ORemoveBack n => array_remove_back a n
+  | OClear b => array_clear a b
+  | OInsertInput i vs => array_insert_input a i vs
   | OReserve n => array_reserve a n
   | OShrink n => array_shrink a n
   | OSet i v => array_set a i v
@@ -221,3 +258,39 @@ Definition run_op (a : array) (o : op) : res array :=
 Definition observe (a : array) : list (option V) :=
   map (fun c => match c with Live v => Some v | _ => None end) (firstn (cnt (body a)) (cells (body a))).
 End Array.
+
+(* ================================================================== SegmentedArray: a thin layer
+   SegmentedArray (SegmentedArray.h) is an index-addressed array whose storage is a list of segments; growing the
+   capacity appends segments and NEVER moves an existing item (C16 proves the address arithmetic).  For the element
+   SEQUENCE only this matters: operator[] addresses cell i, Reserve appends raw cells and leaves every existing cell
+   where it is, and Insert / Remove are the SAME ArrayShifter code (ArrayShifter<SegmentedArray>). *)
+Section Seg.
+Variable V : Type.
+Variable self_move : V -> option V.
+Variable after_move : V -> option V.
+(* capacity after reserving at least n items: Settings::GetIndex(segCount, 0) for the first segCount covering n *)
+Variable seg_cap : nat -> nat.
+
+(* Reserve(capacity): if (capacity > GetCapacity()) pvIncCapacity: new segments, nothing is relocated *)
+Definition seg_reserve (b : arr V) (capacity : nat) : arr V :=
+  if cap b <? capacity then mkArr (cells b ++ raws (seg_cap capacity - cap b)) (cnt b) else b.
+
+(* Insert(index, count, item): ItemHandler itemHandler(item); Reserve(mCount + count); ArrayShifter::InsertNogrow *)
+Definition seg_insert (b : arr V) (index count : nat) (x : arg V) : res (arr V) :=
+  v <- read_arg V b x ;;
+  insert_nogrow_gen V self_move after_move true (source_temp V v) (seg_reserve b (cnt b + count)) index count.
+(* Insert(index, Item&&) = InsertVar -> InsertCrt: ItemHandler (move); Reserve(mCount + 1); InsertNogrow(Item&&) *)
+Definition seg_insert_rvalue (b : arr V) (index : nat) (x : arg V) : res (arr V) :=
+  vb <- take_arg V after_move b x ;;
+  let (v, b0) := vb in
+  insert_nogrow_gen V self_move after_move true (source_temp V v) (seg_reserve b0 (cnt b0 + 1)) index 1.
+(* Remove(index, count) / Remove(filter): ArrayShifter::Remove *)
+Definition seg_remove (b : arr V) (index count : nat) : res (arr V) :=
+  remove_range V self_move after_move true b index count.
+(* SetCount(count, item): pvDecCount destroys from the back; pvIncCount: pvIncCapacity, then constructs in place *)
+Definition seg_set_count (b : arr V) (newCount : nat) (x : arg V) : res (arr V) :=
+  if newCount <=? cnt b then remove_back V b (cnt b - newCount)
+  else
+    let b1 := seg_reserve b newCount in
+    for_up (S (cap b1)) (cnt b) newCount (fun _ b' => v <- read_arg V b' x ;; add_back_ctor V b' v) b1.
+End Seg.
